@@ -51,4 +51,11 @@ func init() {
 		Assumptions: commonAssumptions,
 		Rules:       []string{"C15/provenance", "C15/parse-split"},
 	}, ruleC15)
+	register(PropertyMeta{
+		ID:          "C10",
+		Level:       "other",
+		Explanation: "Decided: (union) for every AST type with a Span() method, every span-bearing field (type Span, type implementing Node, or a slice of such) is referenced by the method, so a node's extent contains all of its parts - these methods are never called by the test suite; (recorded) every value stored into a Span-typed field of an AST node, in the parser and in the compiler, is a token's span, nullSpan(), newSpan(tokenA.Span.Start, tokenB.Span.End), or a copy of an already recorded span - so every recorded span starts and ends on token boundaries or is marked invalid; (errors) every parseError is positioned with a token span or end-of-input (never nullSpan, because its Error method slices unguarded) and every other Error method that uses a span guards it with IsValid(); (slices) every slice of source text by span fields uses Start and End of one span that comes from a node's Span() or is IsValid()-guarded. Not decided: that each recorded span designates the right token on every input.",
+		Assumptions: commonAssumptions,
+		Rules:       []string{"C10/union", "C10/recorded", "C10/errors", "C10/slices"},
+	}, ruleC10Union, ruleC10Recorded, ruleC10Errors, ruleC10Slices)
 }
